@@ -373,7 +373,7 @@ func finish(c *Ctx, pd *propDef) int {
 		}
 		if i := strings.Index(name, "/"); i >= 0 {
 			rest := name[i+1:]
-			for _, k := range []string{"post@", "at-eval@", "pre@", "trace@", "arity@", "inv-init@", "inv-keep@", "variant@", "frame:result@", "lemma@", "byte@", "on-call@", "on-store@", "on-map-update@", "on-map-delete@", "no-store@", "operand-kept@", "exact:"} {
+			for _, k := range []string{"post@", "at-eval@", "pre@", "trace@", "arity@", "inv-init@", "inv-keep@", "variant@", "step@", "frame:result@", "lemma@", "byte@", "on-call@", "on-store@", "on-map-update@", "on-map-delete@", "no-store@", "operand-kept@", "exact:"} {
 				if strings.HasPrefix(rest, k) {
 					vanished = append(vanished, name)
 				}
@@ -391,7 +391,7 @@ func finish(c *Ctx, pd *propDef) int {
 	reportedRoot := map[string]bool{}
 	for _, name := range vanished {
 		root := name[:strings.Index(name, "/")]
-		if uv := unverifiable[root]; uv != nil && strings.Contains(uv.Model, "unknown identifier") {
+		if uv := unverifiable[root]; uv != nil && strings.Contains(uv.Model, "unknown identifier") && c.Baseline["shape:"+root].Hash != "" && c.Baseline["shape:"+root].Hash == c.Shapes[root] {
 			// the contract names a local variable that no longer exists (a rename): the contract text is stale,
 			// which says nothing about the property; reported loudly, never as a violation
 			if !reportedRoot[root] {
